@@ -218,6 +218,10 @@ def run(cx):
         else:
             cx.notes.append("known finding %s: witness no longer fails" % f["id"])
 
+    # an opcode the specification has no stack effect for is a gap of the specification, not a verdict on the code
+    unknown_ops = [(pid, it) for pid, items in list(leaks.items()) + list(badsteps.items()) for it in items if "unknown-opcode" in it]
+    if unknown_ops:
+        raise vlib.Inconclusive("the compiler emits an opcode that Bytecode.tla does not know (effect table out of date): %s" % str(unknown_ops[:3])[:300])
     # ---- verdicts
     for pid, items in sorted(badsteps.items()):
         c = by_id[pid]
